@@ -56,8 +56,9 @@ def run(prog: Program, rep: Report, tier: str) -> None:
         raise AnalysisError("DeviceType / DeviceCategory are no longer enums")
     where = f"{loc(dt, dt.node)} DeviceType"
     for a in ("hex_rep", "protocol_type", "category", "value"):
-        if a not in dt.enum.attrs or (isinstance(dt.enum.attrs[a], tuple) and dt.enum.attrs[a][:1] != ("expr",)):
-            raise AnalysisError(f"DeviceType.{a} is not a plain member attribute any more")
+        if a not in dt.enum.attrs:
+            raise AnalysisError(f"DeviceType.{a} is no longer an attribute of the members")
+        dt.enum.attr(next(iter(dt.enum.members)), a)      # (raises when the attribute cannot be established, by slot or by interpretation)
     codes: Dict[str, str] = {}
     values: Dict[str, str] = {}
     cats = {("enum", EnumRef(cat.key, m)) for m in cat.enum.members}
